@@ -285,6 +285,8 @@ def run(rep, tier):
                         # the EMPTY string is a value like any other: a bare `--config key=` assigns it (and wins over the file)
                         if c["srcs"]["cli"] != "absent" and fam.name != "kotlin.domain":
                             vsets.append(dict(vsets[0], cli=""))
+                            # ... and so is a value with punctuation in it (a hyphen is not a key separator inside a value)
+                            vsets.append(dict(vsets[0], cli="my-cli.v_1"))
                         for values in vsets:
                             res, how = run_case(fam, b, c, values, style, wd)
                             nruns += 1
@@ -298,7 +300,7 @@ def run(rep, tier):
                                 ok = got not in values.values()
                             if not ok:
                                 rep.violation({"family": fam.name, "backend": b, "effective_source": eff, "srcs": c["srcs"],
-                                               "values": "plain" if values is vsets[0] else ("empty on the command line" if values["cli"] == "" else "numeric-looking strings")},
+                                               "values": "plain" if values is vsets[0] else ("empty on the command line" if values["cli"] == "" else ("hyphen in the command-line value" if "-" in values["cli"] else "numeric-looking strings"))},
                                               {"expected_value": want, "observed_value": got, "how": how, "stderr": res["stderr"][-600:]})
                     else:
                         # two-valued settings: each present source in turn carries the distinguished value
